@@ -111,6 +111,16 @@ func buildClientHello(browser browser, fields clientHelloFields) ([]byte, error)
 	return uclient.HandshakeState.Hello.Raw, nil
 }
 
+// Close closes the underlying connection, if the handshake got far enough to have one. Handshake may fail
+// before TLSConn is set (e.g. the ClientHello cannot be written); MakeSession closes the transport in that
+// case as well, which used to dereference the nil embedded *TLSConn and crash the whole client
+func (tls *DirectTLS) Close() error {
+	if tls.TLSConn != nil {
+		return tls.TLSConn.Close()
+	}
+	return nil
+}
+
 // Handshake handles the TLS handshake for a given conn and returns the sessionKey
 // if the server proceed with Cloak authentication
 func (tls *DirectTLS) Handshake(rawConn net.Conn, authInfo AuthInfo) (sessionKey [32]byte, err error) {
